@@ -51,6 +51,17 @@ def subharnesses(tier):
                                 'more_events': [['remove_app', who]]}
                         subs.append(('%s-D%d-A%d-n%d-%s-rmserver_rmapp%d' % (
                             topo, D, A, count, g1.ptag(pl), who), spec))
+                # the server of the member holding the highest identity
+                # disappears and the group shrinks below that identity in the
+                # same batch of events
+                if placed and count == 2:
+                    for newcount in (1, 0):
+                        spec = {'topo': topo, 'D': D, 'servers': [{}, {}],
+                                'apps': apps, 'igroups': {'g': count},
+                                'event': ['remove_server', pl[placed[-1]]],
+                                'more_events': [['igroup', 'g', newcount]]}
+                        subs.append(('%s-D%d-A%d-n%d-%s-rmserver_shrink%d' % (
+                            topo, D, A, count, g1.ptag(pl), newcount), spec))
                 if placed:
                     for st in ('down', 'frozen'):
                         spec = {'topo': topo, 'D': D, 'servers': [{}, {}],
